@@ -44,6 +44,18 @@ def galg(depths, budget=120.0, roots=None):
             for lk, d in depths.items()]
 
 
+def galgc(depths, budget=150.0, job_budget=60.0):
+    """Guard algebra under contention (harness/locks.cpp --galg D --galg-contend ...): one representative history of every distinct
+    state the breadth-first search reaches within depth D is run as thread 0 against a second thread that performs one section on
+    lock 0, every interleaving (no preemption bound; the state cache closes the search)."""
+    secs = {0: "S,SIX,X,U,D", 1: "S,SIX,X,U,D,Xvp,OX,P", 2: "S,SIX,X,U,D"}
+    return [dict(h=L(lk), families=[], bound=-1, budget=budget, job_budget=job_budget, extra=["--galg", str(d), "--galg-contend", secs[lk]],
+                 label="guard-algebra states of depth <= %d, each against one contending section (%s), all interleavings" % (d, secs[lk]))
+            for lk, d in depths.items()]
+
+
+GCQ = {0: 5, 1: 2, 2: 2}    # contended guard algebra: quick depths
+GCT = {0: 8, 1: 3, 2: 3}    # thorough depths (PessimisticLock: every reachable state of the algebra)
 GQ = {0: 8, 1: 5, 2: 6}     # quick depths (PessimisticLock: the search closes at depth 8)
 GT = {0: 10, 1: 6, 2: 8}    # thorough depths
 
@@ -55,8 +67,8 @@ def lock_spec(prop, tier):
         if q:
             return (lr(merge(fam("p2x1", "conv2", "guards2"), fam("opt2", "prep2", locks=OPT)), -1)
                     + lr(fam("p2x2", "p3x1"), 2)
-                    + lr(fam("rrw", locks=(0, 1)), 3))
-        return (lr(merge(fam("p2x1", "conv2", "p2x2"), fam("opt2", "prep2", locks=OPT)), -1, **T)
+                    + lr(fam("rrw", locks=(0, 1)), 3) + galgc({0: 4, 1: 2}))
+        return (galgc(GCT, 600, 120) + lr(merge(fam("p2x1", "conv2", "p2x2"), fam("opt2", "prep2", locks=OPT)), -1, **T)
                 + lr(merge(fam("p3x1", "conv3", "p2x3"), fam("opt3", "prep3", locks=OPT)), 3, **T)
                 + lr(fam("rrw"), 4, **T)
                 + lr(fam("p3x2w", locks=(0, 1)), 3, **T)
@@ -68,7 +80,7 @@ def lock_spec(prop, tier):
             return (lr(merge(fam("p1", "p2x1", "conv2"), fam("prep2", locks=OPT)), -1)
                     + lr(fam("p2x2", "p3x1"), 2)
                     + lr(fam("p1"), 1, dev=1) + galg({0: 6, 1: 4, 2: 5}))
-        return (galg(GQ, 600) + lr(merge(fam("p1", "p2x1", "conv2", "p2x2", "twolocks"), fam("prep2", "opt2", locks=OPT)), -1, **T)
+        return (galg(GQ, 600) + galgc(GCT, 600, 120) + lr(merge(fam("p1", "p2x1", "conv2", "p2x2", "twolocks"), fam("prep2", "opt2", locks=OPT)), -1, **T)
                 + lr(merge(fam("p3x1", "conv3", "p2x3"), fam("warm2", locks=MCS)), 3, **T)
                 + lr(fam("p4x1", locks=MCS), 2, **T)
                 + lr(fam("p2x1", "p3x1"), 2, dev=1, **T)
@@ -76,20 +88,20 @@ def lock_spec(prop, tier):
     if prop == "C07":
         if q:
             return (lr(merge(fam("guards1", "guards2", "p2x1"), fam("opt1", "prep2", locks=OPT)), -1)
-                    + lr(fam("p2x2"), 2) + galg(GQ))
-        return (galg(GT, 900) + lr(merge(fam("guards1", "guards2", "p2x1", "p2x2", "twolocks"), fam("opt1", "opt2", "prep2", locks=OPT)), -1, **T)
+                    + lr(fam("p2x2"), 2) + galg(GQ) + galgc(GCQ))
+        return (galg(GT, 900) + galgc(GCT, 600, 120) + lr(merge(fam("guards1", "guards2", "p2x1", "p2x2", "twolocks"), fam("opt1", "opt2", "prep2", locks=OPT)), -1, **T)
                 + lr(merge(fam("guards3"), fam("prep3", locks=OPT)), 3, **T))
     if prop == "C08":
         if q:
             return (lr(merge(fam("p2x1", "conv2", "guards2"), fam("opt2", "prep2", "republish", locks=OPT)), -1)
                     + lr(fam("p2x2", "p3x1"), 2))
-        return (lr(merge(fam("p2x1", "conv2", "p2x2", "guards2"), fam("opt2", "prep2", "republish", locks=OPT)), -1, **T)
+        return (galgc(GCT, 600, 120) + lr(merge(fam("p2x1", "conv2", "p2x2", "guards2"), fam("opt2", "prep2", "republish", locks=OPT)), -1, **T)
                 + lr(merge(fam("p3x1", "conv3", "p2x3"), fam("opt3", "prep3", locks=OPT), fam("warm2", locks=MCS)), 3, **T)
                 + lr(fam("p4x1", locks=MCS), 2, **T))
     if prop == "C10":
         if q:
-            return lr(merge(fam("conv2"), fam("opt2", locks=OPT)), -1) + lr(fam("conv3"), 2)
-        return (lr(merge(fam("conv2", "p2x2"), fam("opt2", locks=OPT)), -1, **T)
+            return lr(merge(fam("conv2"), fam("opt2", locks=OPT)), -1) + lr(fam("conv3"), 2) + galgc(GCQ)
+        return (galgc(GCT, 600, 120) + lr(merge(fam("conv2", "p2x2"), fam("opt2", locks=OPT)), -1, **T)
                 + lr(fam("conv3", "p3x2c"), 3, **T)
                 + lr(fam("conv2"), 2, dev=1, **T))
     if prop == "C11":
@@ -103,8 +115,8 @@ def lock_spec(prop, tier):
     if prop == "C12":
         if q:
             return (lr(fam("p1", "p2x1", "conv2", "guards2", locks=MCS), -1)
-                    + lr(fam("p2x2", "p3x1", "warm2", "twolocks", locks=MCS), 2) + galg({2: GQ[2]}))
-        return (galg({2: GT[2]}, 900) + lr(fam("p1", "p2x1", "conv2", "guards2", "p2x2", "twolocks", locks=MCS), -1, **T)
+                    + lr(fam("p2x2", "p3x1", "warm2", "twolocks", locks=MCS), 2) + galg({2: GQ[2]}) + galgc({2: GCQ[2]}))
+        return (galg({2: GT[2]}, 900) + galgc({2: GCT[2]}, 600, 120) + lr(fam("p1", "p2x1", "conv2", "guards2", "p2x2", "twolocks", locks=MCS), -1, **T)
                 + lr(fam("p3x1", "warm2", "guards3", "conv3", "p3x2", locks=MCS), 3, **T)
                 + lr(fam("p4x1", locks=MCS), 2, **T)
                 + lr(fam("p2x1", "p3x1", locks=MCS), 2, dev=1, **T))
@@ -129,7 +141,7 @@ def lock_spec(prop, tier):
             return (lr(fam("opt1", "prep2", locks=OPT), -1)
                     + lr(fam("prep2", locks=OPT), -1, retry=1)
                     + lr(fam("opt1", locks=OPT), 2, dev=1) + galg({1: 4}))
-        return (galg({1: 6}, 900) + lr(fam("opt1", "prep2", locks=OPT), -1, **T)
+        return (galg({1: 6}, 900) + galgc({1: GCT[1]}, 600, 120) + lr(fam("opt1", "prep2", locks=OPT), -1, **T)
                 + lr(fam("prep3", locks=OPT), 4, **T)
                 + lr(fam("prep4", locks=OPT), 3, **T)
                 + lr(fam("prep2", locks=OPT), -1, retry=1, **T)
